@@ -132,7 +132,13 @@ func ValidatePluginResponses(pluginResponses []*PluginResponse) error {
 				continue
 			}
 			fileName := filepath.Join(pluginResponse.PluginOut, file.GetName())
-			if pluginName, ok := seen[fileName]; ok {
+			// Compare by absolute path: the same output directory may be configured
+			// once as a relative and once as an absolute path.
+			key := fileName
+			if absFileName, err := filepath.Abs(fileName); err == nil {
+				key = absFileName
+			}
+			if pluginName, ok := seen[key]; ok {
 				return fmt.Errorf(
 					"file %q was generated multiple times: once by plugin %q and again by plugin %q",
 					fileName,
@@ -140,7 +146,7 @@ func ValidatePluginResponses(pluginResponses []*PluginResponse) error {
 					pluginResponse.PluginName,
 				)
 			}
-			seen[fileName] = pluginResponse.PluginName
+			seen[key] = pluginResponse.PluginName
 		}
 		// Note: we used to verify that the plugin set min/max edition correctly if it set the
 		// SUPPORTS_EDITIONS feature. But some plugins in the protoc codebase, from when editions
